@@ -144,6 +144,12 @@ type Msg struct {
 	// Wire, if set by the hook, is sent instead of the re-encoded message
 	// (byte-level truncation / extension).
 	Wire []byte
+	// Synthetic marks a message the host never sent: the server closed the
+	// stream before this message of the table (typically after refusing the
+	// request with an RPCError). The hook may fill Obj (a lenient hostile host
+	// that answers where the honest one refuses) and return Forward; a hook that
+	// does not fill it must return Cut, which is what happened on the wire.
+	Synthetic bool
 }
 
 // An Action tells the transport what to do with a message after the hook ran.
